@@ -1121,6 +1121,9 @@ impl Run {
                         .spawn_scoped(s, move || ctx2.close(c, "g7", h, db))
                         .unwrap();
                     std::thread::sleep(Duration::from_millis(30));
+                    // the owner is closing while its compaction is suspended in the merge loop:
+                    // the lock must still be held
+                    self.seq_open();
                     ctx.gates.release(BG);
                     let t0 = Instant::now();
                     while !ctx.gates.is_parked(BG, "create_table")
